@@ -1,5 +1,5 @@
 (* C07 — property theorems.  Nothing but statements, `exact`, Print Assumptions. *)
-From G07 Require Import Model Check Proofs Obligations.
+From G07 Require Import Model Check Proofs Concurrent Obligations.
 Open Scope N_scope.
 
 (* Relative to an x509 oracle (cert type, `valid`, `verify` sound for `valid`, `create` valid for
@@ -90,6 +90,50 @@ Proof.
            ob_connect_checks_mitm_before_dial ob_mitm_tls_only_on_handshake_byte).
 Qed.
 Print Assumptions T07_included_intercepted.
+
+(* "All interleavings of concurrent handshakes; cache sizes down to 1 and TTL shorter than the run", as a labelled
+   transition system (Concurrent.v): any number of handshakes, each running cert() in four atomic steps (Get,
+   Check, Create, Add) over ONE shared cache that may lose any entry at any moment (eviction at any capacity, TTL)
+   and may be handed any certificate under any key.  In every state reachable from ANY initial cache by ANY
+   sequence of labels, a handshake that has returned holds a certificate valid for its own name (port stripped)
+   at the time of its Check / Create step -- relative to the same x509 oracle as T07_cert_valid_for_name. *)
+Theorem T07_concurrent_handshakes :
+  forall (cert : Type) (valid : cert -> str -> Z -> Prop) (verify : cert -> str -> Z -> bool)
+         (create : str -> Z -> cert) (v : Z),
+    (forall c n t, verify c n t = true -> valid c n t) ->
+    (forall n t t', (t - v <= t' <= t + v)%Z -> valid (create n t) n t') ->
+    (0 <= v)%Z ->
+    forall (cache0 : list (str * cert)) (ls : list (label cert)) (p : proc cert) (c : cert) (t : Z),
+      In p (st_procs cert (exec cert verify create {| st_cache := cache0; st_procs := [] |} ls)) ->
+      p_phase cert p = Done cert c t -> valid c (strip_port (p_name cert p)) t.
+Proof. exact all_returned_valid. Qed.
+Print Assumptions T07_concurrent_handshakes.
+
+Example T07_lts_example :
+  map (fun p => match p_phase leaf p with Done _ _ _ => true | _ => false end) (st_procs leaf ex_lts_run) = [true; true; true] /\
+  length (st_cache leaf ex_lts_run) = 1%nat.
+Proof. exact lts_example_ok. Qed.
+
+(* mitm-domains judges req.URL.Hostname(): for an authority host:port that is the host (DNS name, IPv4), for
+   [v6]:port the address without brackets; so a list that excludes that host tunnels the CONNECT. *)
+Theorem T07_filter_judges_host_without_port : forall has_cfg f host a port first_byte,
+  all_digits port = true ->
+  (has_byte COLON host = false -> (match host with c0 :: _ => N.eqb c0 LBR = false | [] => True end) ->
+     url_hostname (host ++ COLON :: port) = host /\
+     (f host = false -> connect_events has_cfg (Some f) (host ++ COLON :: port) first_byte = [EvDial (host ++ COLON :: port); EvWrite200; EvCopy])) /\
+  (url_hostname (LBR :: a ++ RBR :: COLON :: port) = a /\
+     (f a = false -> connect_events has_cfg (Some f) (LBR :: a ++ RBR :: COLON :: port) first_byte =
+                     [EvDial (LBR :: a ++ RBR :: COLON :: port); EvWrite200; EvCopy])).
+Proof.
+  exact (fun has_cfg f host a port fb Hd =>
+    conj (fun Hc Hb => conj (url_hostname_plain host port Hc Hd Hb)
+            (fun Hf => excluded_tunnelled has_cfg f (host ++ COLON :: port) fb ob_mitm_filter_uses_url_hostname
+                         (eq_ind_r (fun h => f h = false) Hf (url_hostname_plain host port Hc Hd Hb))))
+         (conj (url_hostname_bracketed a port Hd)
+            (fun Hf => excluded_tunnelled has_cfg f (LBR :: a ++ RBR :: COLON :: port) fb ob_mitm_filter_uses_url_hostname
+                         (eq_ind_r (fun h => f h = false) Hf (url_hostname_bracketed a port Hd))))).
+Qed.
+Print Assumptions T07_filter_judges_host_without_port.
 
 (* Which name does mitm-domains judge when the SNI differs from the CONNECT host?  The CONNECT host only
    (req.URL.Hostname()).  A CONNECT to an included host whose ClientHello names an EXCLUDED host is intercepted
